@@ -536,6 +536,76 @@ def rw_R24_flat_map_collect(text, log, where):
         text = text[:k] + new + text[end:]
 
 
+def rw_R25_filter_collect(text, log, where):
+    """V.into_iter().filter(|x| E).collect[::<..>]() -> loop keeping, in order, the elements for which E holds"""
+    while True:
+        masked = mask_code(text)
+        m = re.search(r'\.\s*into_iter\(\)\s*\.\s*filter\s*\(', masked)
+        if not m:
+            return text
+        o = m.end() - 1
+        c = match_close(masked, o)
+        clo = text[o + 1:c].strip()
+        mc = re.match(r'\|\s*([A-Za-z_][A-Za-z_0-9]*)\s*\|\s*(.*)$', clo, flags=re.S)
+        tail = re.match(r'\s*\.\s*collect\s*(::\s*<[^()]*>)?\s*\(\s*\)', masked[c + 1:])
+        if not mc or not tail:
+            raise ExtractError('R25: unexpected filter shape in ' + where)
+        end = c + 1 + tail.end()
+        k = receiver_start(masked, m.start())
+        recv = text[k:m.start()].strip()
+        new = ('{ let vf_ = %s; let mut kept_ = Vec::new(); let mut ik_: usize = 0; while ik_ < vf_.len() '
+               '{ let %s = &vf_[ik_]; if %s { kept_.push(vf_[ik_]); } ik_ += 1; } kept_ }'
+               % (recv, mc.group(1), mc.group(2).strip()))
+        log.append({'rule': 'R25', 'where': where, 'before': text[k:end], 'after': new})
+        text = text[:k] + new + text[end:]
+
+
+def rw_R12_retain(text, log, where):
+    """V.retain(|x| E); -> loop keeping, in order, the elements for which E holds (definition of Vec::retain for a
+    predicate that does not panic); removes the closure capturing &mut self that Verus cannot type"""
+    while True:
+        masked = mask_code(text)
+        m = re.search(r'\b([a-z_][A-Za-z_0-9]*)\s*\.\s*retain\s*\(\s*\|\s*([A-Za-z_][A-Za-z_0-9]*)\s*\|', masked)
+        if not m:
+            return text
+        o = masked.index('(', m.start())
+        c = match_close(masked, o)
+        body = text[m.end():c].strip()
+        j = c + 1
+        while masked[j].isspace():
+            j += 1
+        if masked[j] != ';':
+            raise ExtractError('R12: retain() not used as a statement in ' + where)
+        v, x = m.group(1), m.group(2)
+        new = ('{ let mut kept_ = Vec::new(); let mut ir_: usize = 0; while ir_ < %s.len() '
+               '{ let %s = &%s[ir_]; if %s { kept_.push(%s[ir_]); } ir_ += 1; } %s = kept_; }'
+               % (v, x, v, body, v, v))
+        log.append({'rule': 'R12', 'where': where, 'before': text[m.start():j + 1], 'after': new})
+        text = text[:m.start()] + new + text[j + 1:]
+
+
+def rw_R26_find(text, log, where):
+    """V.into_iter().find(|x| E) -> loop returning the first element for which E holds (definition of Iterator::find)"""
+    while True:
+        masked = mask_code(text)
+        m = re.search(r'\.\s*into_iter\(\)\s*\.\s*find\s*\(', masked)
+        if not m:
+            return text
+        o = m.end() - 1
+        c = match_close(masked, o)
+        clo = text[o + 1:c].strip()
+        mc = re.match(r'\|\s*([A-Za-z_][A-Za-z_0-9]*)\s*\|\s*(.*)$', clo, flags=re.S)
+        if not mc:
+            raise ExtractError('R26: unexpected find shape in ' + where)
+        k = receiver_start(masked, m.start())
+        recv = text[k:m.start()].strip()
+        new = ('{ let vs_ = %s; let mut found_ = None; let mut is_: usize = 0; while is_ < vs_.len() '
+               '{ let %s = &vs_[is_]; if %s { found_ = Some(vs_[is_]); break; } is_ += 1; } found_ }'
+               % (recv, mc.group(1), mc.group(2).strip()))
+        log.append({'rule': 'R26', 'where': where, 'before': text[k:c + 1], 'after': new})
+        text = text[:k] + new + text[c + 1:]
+
+
 def rw_R9_is_some_and(text, log, where):
     while True:
         masked = mask_code(text)
@@ -719,6 +789,9 @@ def apply_text_rules(text, log, where, opts):
     text = rw_R19_join(text, log, where)
     text = rw_R11_map_collect(text, log, where)
     text = rw_R24_flat_map_collect(text, log, where)
+    text = rw_R25_filter_collect(text, log, where)
+    text = rw_R12_retain(text, log, where)
+    text = rw_R26_find(text, log, where)
     text = rw_R14_closure_underscore(text, log, where)
     text = rw_R1_for_array(text, log, where)
     return text
@@ -964,7 +1037,11 @@ class Unit:
             text = attrs + sig + '\n' + contract.rstrip() + '\n' + fbody + '\n'
             self.functions.append({'name': name, 'out_name': out_name, 'file': rel, 'scope': scope,
                                    'source_sha': sha, 'contract': contract.strip(), 'props': opts.get('props', '')})
-            return '/*@BEGIN-FN %s*/\n%s/*@END-FN %s*/' % (out_name, text, out_name)
+            ty = re.sub(r'^.*\bfor\s+', '', scope).replace('impl', '').strip()
+            ty = re.sub(r'[^A-Za-z0-9_]', '', ty)
+            label = (ty + '::' + out_name) if ty and scope not in ('', '-', 'top') else out_name
+            self.functions[-1]['label'] = label
+            return '/*@BEGIN-FN %s*/\n%s/*@END-FN %s*/' % (label, text, label)
         # ---- aspects: the same signature, requires and body verified once per group of ensures clauses,
         # each copy in its own module (parallel, small queries).  Callers see the conjunction of the
         # aspects' ensures (Hoare conjunction rule; the union is generated here, never hand-written).
@@ -1047,7 +1124,7 @@ def build_unit(repo, vxdir, template, out_path, extra_consts=()):
         m = re.search(r'/\*@END-FN (\S+)\*/', line)
         if m and cur:
             cur['end'] = ln
-            cur['props'] = [x for x in next((f.get('props', '') for f in u.functions if f['out_name'] == cur['fn']), '').split(',') if x]
+            cur['props'] = [x for x in next((f.get('props', '') for f in u.functions if f.get('label', f['out_name']) == cur['fn']), '').split(',') if x]
             fnmap.append(cur)
             cur = None
     if u.aspect_mods:
